@@ -297,3 +297,46 @@ func vfH_C12_hostile() {
 		}
 	}
 }
+
+//vf:assume C12-connectreply: an upstream proxy rejects the transport's CONNECT (403/407/502/503) with a body announced as 6 bytes of which 0, 2, 4 or all 6 arrive before the upstream connection fails or ends; the hook the proxy installs on http.Transport (OnProxyConnectResponse) turns the reply into the round-trip error, which the real connection loop answers the client with; http.Transport itself is outside
+
+//vf:harness property=C12 nopanic reach=connectreply-complete,connectreply-cut steps=8000000
+func vfH_C12_connectreply() {
+	cfg := HTTPProxyConfig{}
+	cfg.Name = "fw"
+	cfg.ProxyLocalhost = AllowProxyLocalhost
+	hp := vfNewHTTPProxy(cfg)
+	rt := hp.transport.(*vfRoundTripper)
+	status := []int{403, 407, 502, 503}[vfrt.Choice("upstream-status", 4)]
+	k := vfrt.Choice("body-bytes-before-the-cut", 4) * 2
+	full := []byte("DENIED")
+	rt.respond = func(req *http.Request, n int) (*http.Response, error) {
+		up := &http.Response{StatusCode: status, Status: http.StatusText(status), ProtoMajor: 1, ProtoMinor: 1,
+			Header: http.Header{"X-Upstream": {"1"}}, ContentLength: 6, Request: req}
+		if k == 6 {
+			up.Body = io.NopCloser(bytes.NewReader(full))
+		} else {
+			up.Body = &vfFailingBody{data: full[:k], err: io.ErrUnexpectedEOF}
+		}
+		u, _ := url.Parse("http://proxy.internal:3128")
+		return nil, martian.OnProxyConnectResponse(req.Context(), u, req, up)
+	}
+	conn := martian.NewVfConn([]byte("GET https://example.com/a HTTP/1.1\r\nHost: example.com\r\n\r\n"))
+	martian.VfServeConn(hp.proxy, conn)
+	br := bufio.NewReader(bytes.NewReader(conn.Out.Bytes()))
+	res, perr := http.ReadResponse(br, &http.Request{Method: "GET"})
+	vfrt.Assert(perr == nil, "connectreply/client-is-answered-with-a-well-formed-response")
+	if perr != nil {
+		return
+	}
+	body, berr := io.ReadAll(res.Body)
+	vfrt.Assert(berr == nil && res.ContentLength == int64(len(body)), "connectreply/response-complete")
+	vfrt.Assert(res.StatusCode >= 400, "connectreply/is-an-error-status")
+	if k == 6 {
+		vfrt.Reach("connectreply-complete")
+	} else {
+		vfrt.Reach("connectreply-cut")
+	}
+	// what the client gets is the upstream's whole message or none of it - never a fragment presented as complete
+	vfrt.Assert(len(body) == 0 || bytes.Equal(body, full) || !bytes.HasPrefix(full, body), "connectreply/no-truncated-upstream-body-presented-as-complete")
+}
